@@ -142,6 +142,33 @@ fn scenario(seed: u64, rep: &Report, dedicated: bool) -> Result<(), String> {
                             recs.push(ExecRec { op: "bind_execute".into(), client: cid.clone(), portal, expect_sql: t.sql.clone(), expect_types: t.types.clone(), name: name.clone(), reply: summarize(&r), ok });
                         }
                     }
+                    7 if rng.chance(1, 2) => {
+                        // a named portal opened, run and closed twice under the same name inside one
+                        // transaction: Close(P) must reach the server, replies keep their order
+                        if let Some(t) = model.get(&name).cloned() {
+                            let r = c.query("BEGIN", 10_000).map_err(|(m, e)| format!("{} BEGIN: {:?} {}", cid, e, summarize(&m)))?;
+                            if crate::wire::first_error(&r).is_some() {
+                                problems.push(format!("Portal cycle: BEGIN answered {}", summarize(&r)));
+                            }
+                            let params: Vec<Option<Vec<u8>>> = t.types.iter().map(|_| Some(b"7".to_vec())).collect();
+                            let portal = format!("{}_cur", cid);
+                            for round in 0..2 {
+                                let mut b = proto::bind(&portal, &name, &[], &params, &[]);
+                                b.extend(proto::execute(&portal, 0));
+                                b.extend(proto::close(b'P', &portal));
+                                b.extend(proto::sync());
+                                c.send(&b).map_err(|e| e.to_string())?;
+                                let r = c.read_until_ready(10_000).map_err(|(m, e)| format!("{} portal cycle {}: {:?} {}", cid, name, e, summarize(&m)))?;
+                                let ts = proto::type_string(&r);
+                                if ts != "2DC3Z" {
+                                    problems.push(format!("Portal cycle: round {} of Bind({}, {}) Execute Close(P) Sync answered {} (a direct connection answers 2 D C 3 Z)", round + 1, portal, name, summarize(&r)));
+                                    break;
+                                }
+                            }
+                            let r = c.query("COMMIT", 10_000).map_err(|(m, e)| format!("{} COMMIT: {:?} {}", cid, e, summarize(&m)))?;
+                            let _ = r;
+                        }
+                    }
                     7 => {
                         // Describe statement
                         if let Some(t) = model.get(&name).cloned() {
@@ -154,6 +181,15 @@ fn scenario(seed: u64, rep: &Report, dedicated: bool) -> Result<(), String> {
                             if n != Some(t.types.len()) {
                                 problems.push(format!("Describe {} (prepared as {} with {} parameter types) answered {} ({:?} parameters)", name, t.id, t.types.len(), summarize(&r), n));
                             }
+                        }
+                    }
+                    8 if rng.chance(1, 2) => {
+                        // session state changed outside a transaction: the pooler resets the connection
+                        // at check-in (RESET ALL deallocates nothing; the statements must stay usable)
+                        let sql = *rng.pick(&["SET work_mem TO '4MB'", "SET search_path TO public", "SET ROLE NONE"]);
+                        let r = c.query(sql, 10_000).map_err(|(m, e)| format!("{} {}: {:?} {}", cid, sql, e, summarize(&m)))?;
+                        if crate::wire::first_error(&r).is_some() {
+                            problems.push(format!("Set: `{}` answered {}", sql, summarize(&r)));
                         }
                     }
                     8 => {
@@ -277,7 +313,7 @@ fn scenario(seed: u64, rep: &Report, dedicated: bool) -> Result<(), String> {
     }
     let cfgname = format!("cache={} pool_size={}", cache, pool_size);
     for f in client_failures {
-        let kind = if f.contains("client aborted") { "client_connection_broken" } else if f.starts_with("Describe") { "describe_wrong" } else if f.starts_with("Close") { "close_wrong" } else { "parse_reply_wrong" };
+        let kind = if f.contains("client aborted") { "client_connection_broken" } else if f.starts_with("Describe") { "describe_wrong" } else if f.starts_with("Close") { "close_wrong" } else if f.starts_with("Set:") { "set_outside_transaction_wrong" } else if f.starts_with("Portal cycle") { "named_portal_cycle_wrong" } else { "parse_reply_wrong" };
         rep.violation(&format!("C08|{}|cache_size_class={}", kind, if cache == 1 { "1" } else if cache < 8 { "small" } else { "large" }), &format!("{} ({})", f, cfgname), json!({"seed": seed, "cfg": cfgname, "log_tail": cell.pg().log_tail(8)}));
     }
     // ---- mock side: what ran for each portal, name -> (text, types) bindings, errors
